@@ -317,14 +317,14 @@ def countDocuments (n : Nat) (skip : Int) (limit : CountLimit) : R Int :=
 
 inductive Stage where
   | sort (spec : SortSpec)
-  | skip (n : Int)          -- `lambda c, d, o: c[o:]`
-  | limit (n : Int)         -- `lambda c, d, o: c[:o]`
+  | skip (n : Int)          -- `_handle_skip_stage`: a negative count is an OperationFailure
+  | limit (n : Int)         -- `_handle_limit_stage`: a count that is not positive is an OperationFailure
   deriving Repr, Inhabited
 
 def Stage.apply (docs : List Val) : Stage → R (List Val)
   | .sort spec => aggSort spec docs
-  | .skip n => .ok (pyDropFrom n docs)
-  | .limit n => .ok (pyTakeTo n docs)
+  | .skip n => if n < 0 then .error .opFail else .ok (docs.drop n.toNat)
+  | .limit n => if n ≤ 0 then .error .opFail else .ok (docs.take n.toNat)
 
 /-- `process_pipeline`: `for stage in pipeline: collection = handler(collection, …)` -/
 def runPipeline : List Stage → List Val → R (List Val)
